@@ -57,7 +57,7 @@ Definition one_hot_encode (alpha ign s : str) : res dna :=
   mapM (fun c => ohe_col (length alpha) (nth (Z.to_nat c) t (-2))) s.
 
 (* ------------------------------------------------------------------------------------ *)
-(* characters: shape check, tie check (skipped with allow_N; force is never used), arg-max
+(* characters: shape check, tie check (skipped with allow_N or force), arg-max
    decoding, all-zero columns become 'N' under allow_N.  A tensor (A, 0) is the empty list
    and is taken to have the right A.                                                      *)
 
@@ -74,11 +74,11 @@ Definition decode_col (alpha : str) (allowN : bool) (c : col) : Z :=
   if allowN && (col_sum c =? 0) then charN else nth (argmax c) alpha 0.
 
 (* [empty_raises] = the pre-fix behaviour: .max() over zero positions raised *)
-Definition characters_gen (empty_raises : bool) (alpha : str) (allowN : bool) (X : dna) : res str :=
+Definition characters_gen (empty_raises : bool) (alpha : str) (force allowN : bool) (X : dna) : res str :=
   ensure forallb (fun c => (length c =? length alpha)%nat) X ;;   (* pwm.shape[0] == len(alphabet) *)
   ensure negb (length alpha =? 0)%nat ;;                          (* max over an empty axis raises *)
   ensure negb (empty_raises && (length X =? 0)%nat) ;;
-  ensure negb (existsb (fun c => (1 <? count (maxZ c) c)%nat) X && negb allowN) ;;
+  ensure negb (existsb (fun c => (1 <? count (maxZ c) c)%nat) X && negb force && negb allowN) ;;
   Ok (map (decode_col alpha allowN) X).
 
 Definition characters := characters_gen false.
